@@ -84,4 +84,38 @@ PROPS = {
         "not_covered": ["machine overflow of the intermediate (x % d) + d (characterised exactly by theorem, exhibited by the search)", "Horner rounding bound (Float-only)", "generator phase accumulation error in floating point"],
         "assumptions": [],
     },
+    "C14": {
+        "corr_filters": [],
+        "hand_suites": ["order"],
+        "not_covered": ["full functional correctness of quickselect (partition invariant) unless Props/C14/SelectCorrect.lean proves it: otherwise it rests on the exhaustive weak-ordering correspondence + sort oracle, labelled as a test",
+                        "ranks() top level (sort-based; only handle_rank_ties is modelled)"],
+        "assumptions": ["slice sort_by is modelled by a stable merge sort where it occurs"],
+    },
+    "C15": {
+        "corr_filters": [],
+        "hand_suites": ["empirical"],
+        "not_covered": ["rounding of the running moments ('up to rounding proportional to the largest magnitude ever inserted'): measured by the exact multiset oracle in the search"],
+        "assumptions": ["hand model Statrs/Model/Empirical.lean (BTreeMap as a sorted association list) pinned bit-for-bit to the code by the correspondence"],
+    },
+    "C16": {
+        "corr_filters": ["crate::stats_tests::fisher", "Hypergeometric::"],
+        "not_covered": ["two-sided Fisher search correctness (EPSILON-slack scans), KS lattice DP and Marsaglia-Tsang-Wang: exact-oracle search only", "floating-point accuracy of the hypergeometric masses"],
+        "assumptions": [],
+    },
+    "C17": {
+        "corr_filters": ["crate::stats_tests", "StudentsT::cdf", "Normal::cdf", "ChiSquared::sf", "FisherSnedecor::sf"],
+        "not_covered": ["accuracy of the reference distributions' cdfs (C01/C11 territory)", "mannwhitneyu / ks top-level functions are generic over iterators and not translated: statistic formulas for them are search-only"],
+        "assumptions": [],
+    },
+    "C18": {
+        "corr_filters": ["crate::stats_tests"],
+        "not_covered": ["invariance up to rounding in floats (tolerances are search-side)", "termination of the Kolmogorov series"],
+        "assumptions": [],
+    },
+    "C06": {
+        "corr_filters": [],
+        "hand_suites": ["samplers"],
+        "not_covered": ["the output law of rejection samplers (ziggurat, Marsaglia-Tsang gamma, Poisson PTRS) and Cholesky-based samplers; goodness of fit is statistics, not a theorem", "termination of rejection loops (probability-1 only)"],
+        "assumptions": ["hand models Statrs/Model/{Rng,Samplers}.lean with rand 0.8's word->value conversions, pinned bit-for-bit to the code by the scripted-RNG correspondence"],
+    },
 }
